@@ -347,10 +347,19 @@ class VizierServicer(vizier_service_pb2_grpc.VizierServiceServicer):
       ]
       while requested_trials and request.suggestion_count > len(output_trials):
         assigned_trial = requested_trials.pop()
-        assigned_trial.state = study_pb2.Trial.State.ACTIVE
-        assigned_trial.client_id = request.client_id
-        assigned_trial.start_time.CopyFrom(start_time)
-        self.datastore.update_trial(assigned_trial)
+        # Trial edits (delete, metadata) only hold the per-study lock, so
+        # re-read the trial under it instead of writing back a stale copy.
+        with self._study_name_to_lock[study_name]:
+          try:
+            assigned_trial = self.datastore.get_trial(assigned_trial.name)
+          except custom_errors.NotFoundError:
+            continue
+          if assigned_trial.state != study_pb2.Trial.State.REQUESTED:
+            continue
+          assigned_trial.state = study_pb2.Trial.State.ACTIVE
+          assigned_trial.client_id = request.client_id
+          assigned_trial.start_time.CopyFrom(start_time)
+          self.datastore.update_trial(assigned_trial)
         output_trials.append(assigned_trial)
 
       if len(output_trials) == request.suggestion_count:
@@ -415,15 +424,16 @@ class VizierServicer(vizier_service_pb2_grpc.VizierServiceServicer):
 
       # Write the metadata update to the datastore.
       try:
-        self.datastore.update_metadata(
-            study_name,
-            svz.metadata_util.make_key_value_list(
-                suggest_decision.metadata.on_study
-            ),
-            svz.metadata_util.trial_metadata_to_update_list(
-                suggest_decision.metadata.on_trials
-            ),
-        )
+        with self._study_name_to_lock[study_name]:
+          self.datastore.update_metadata(
+              study_name,
+              svz.metadata_util.make_key_value_list(
+                  suggest_decision.metadata.on_study
+              ),
+              svz.metadata_util.trial_metadata_to_update_list(
+                  suggest_decision.metadata.on_trials
+              ),
+          )
       except KeyError as e:
         output_op.error.CopyFrom(
             status_pb2.Status(code=code_pb2.Code.INTERNAL, message=str(e))
@@ -445,13 +455,16 @@ class VizierServicer(vizier_service_pb2_grpc.VizierServiceServicer):
       # what it produced.
       while new_trials and request.suggestion_count > len(output_trials):
         new_trial = new_trials.pop()
-        trial_id = self.datastore.max_trial_id(request.parent) + 1
-        new_trial.id = str(trial_id)
-        new_trial.name = TrialResource(owner_id, study_id, trial_id).name
-        new_trial.state = study_pb2.Trial.State.ACTIVE
-        new_trial.start_time.CopyFrom(start_time)
-        new_trial.client_id = request.client_id
-        self.datastore.create_trial(new_trial)
+        # CreateTrial allocates ids under the per-study lock; do the same so
+        # that both cannot pick the same id.
+        with self._study_name_to_lock[study_name]:
+          trial_id = self.datastore.max_trial_id(request.parent) + 1
+          new_trial.id = str(trial_id)
+          new_trial.name = TrialResource(owner_id, study_id, trial_id).name
+          new_trial.state = study_pb2.Trial.State.ACTIVE
+          new_trial.start_time.CopyFrom(start_time)
+          new_trial.client_id = request.client_id
+          self.datastore.create_trial(new_trial)
         output_trials.append(new_trial)
 
       output_op.response.value = vizier_service_pb2.SuggestTrialsResponse(
@@ -460,11 +473,12 @@ class VizierServicer(vizier_service_pb2_grpc.VizierServiceServicer):
 
       # Store remaining trials as REQUESTED if Pythia over-delivered.
       for remain_trial in new_trials:
-        trial_id = self.datastore.max_trial_id(request.parent) + 1
-        remain_trial.id = str(trial_id)
-        remain_trial.name = TrialResource(owner_id, study_id, trial_id).name
-        remain_trial.state = study_pb2.Trial.State.REQUESTED
-        self.datastore.create_trial(remain_trial)
+        with self._study_name_to_lock[study_name]:
+          trial_id = self.datastore.max_trial_id(request.parent) + 1
+          remain_trial.id = str(trial_id)
+          remain_trial.name = TrialResource(owner_id, study_id, trial_id).name
+          remain_trial.state = study_pb2.Trial.State.REQUESTED
+          self.datastore.create_trial(remain_trial)
 
       output_op.done = True
       self.datastore.update_suggestion_operation(output_op)
